@@ -224,6 +224,41 @@ def rule_elide(facts, rule="C18-ELIDE", only=None, floor=10):
     return r
 
 
+def rule_castbind(facts):
+    """A scalar function that delegates its work to a cast kernel (round(decimal, s) rescales with DecimalToDecimal) binds the
+    kernel to a (source, target) type pair; the arrays the kernel writes have the *target* type. The function's announced
+    return_type therefore has to be that very target value (the same local, or a clone of it) - two separately computed types
+    can drift apart (e.g. one of them clamped)."""
+    r = RuleResult("C18-CASTBIND", "a function bind that delegates to a cast kernel announces exactly the cast's target type as its return_type", floor=1)
+    THRU = ("::clone", "::deref", "::as_ref", "::borrow", "::branch", "::unwrap")
+    for rec in facts.all_fns(["glaredb_core"]):
+        if "CastFunction" not in str(rec["bbs"]) or "::functions::" not in rec["id"] or "::functions::cast::" in rec["id"] or "::tests::" in rec["id"]:
+            continue
+        fn = Fn(rec)
+        binds = [c for c in fn.calls() if (c.decl.endswith("CastFunction::bind") or c.name.endswith("CastFunction>::bind")) and len(c.args) >= 3]
+        if not binds:
+            continue
+        states = [(b, rv, ln) for b, i, pl, rv, ln in fn.assigns() if rv[0] == "agg" and rv[1][0] == "adt" and rv[1][1].endswith("bind_state::BindState")]
+        for c in binds:
+            tgt = fn.origin(c.args[2], at=c.bb, through_calls=THRU)
+            tkey = (tgt[0], tgt[1] if tgt[0] in ("local", "arg") else (tgt[1].bb if tgt[0] == "call" else None))
+            for b, rv, ln in states:
+                flds = rv[1][3]
+                if "return_type" not in flds:
+                    continue
+                r.functions.add(fn.id)
+                r.call_sites += 1
+                ro = fn.origin(rv[2][flds.index("return_type")], at=b, through_calls=THRU)
+                rkey = (ro[0], ro[1] if ro[0] in ("local", "arg") else (ro[1].bb if ro[0] == "call" else None))
+                ok = tkey == rkey and tkey[1] is not None
+                r.inst({"fn": fn.id, "cast_bind_line": c.line, "bind_state_line": ln, "return_type_is_cast_target": ok}, ok)
+                if not ok:
+                    r.violate(fn.id, "return-type-not-cast-target", f"the cast kernel is bound at line {c.line} to one target type, but the BindState built at line {ln} announces a "
+                              "separately computed return_type: the kernel writes arrays of the cast's target type (e.g. another scale) under the announced type",
+                              rec["file"], ln)
+    return r
+
+
 def run(ctx):
     facts = ctx["facts"]
     consts = {c["id"]: c for c in facts.records("const")}
@@ -291,6 +326,7 @@ def run(ctx):
     r.notes.append(f"{dyn} rows compute their return type in bind (dynamic): only the storage family is compared for them")
     res.append(r)
     res.append(rule_elide(facts))
+    res.append(rule_castbind(facts))
     return res
 
 
